@@ -212,7 +212,29 @@ fn main() {
         if ty == Ty::Void {
             continue;
         }
+        // every fifth case: a first arm with or-patterns in several components (the D27 shape)
+        let several_ors = d27_ok && made % 5 == 4 && matches!(ty, Ty::Tuple(_) | Ty::Struct(_));
         let mut arms = gen_arms(&u, &ty, &mut ctx.rng, avoid_void_payload_subpat);
+        if several_ors {
+            let comps = u.product_tys(&ty);
+            let mut none = None;
+            let ps: Vec<Pat> = comps
+                .iter()
+                .map(|t| {
+                    let mut l = u.gen_pat(t, 1, &mut ctx.rng, &mut none, avoid_void_payload_subpat);
+                    while matches!(l, Pat::Or(..)) {
+                        l = u.gen_pat(t, 1, &mut ctx.rng, &mut none, avoid_void_payload_subpat);
+                    }
+                    let r = u.gen_pat(t, 1, &mut ctx.rng, &mut none, avoid_void_payload_subpat);
+                    if l == r || matches!(t, Ty::Void) { l } else { Pat::Or(Box::new(l), Box::new(r)) }
+                })
+                .collect();
+            let first = match &ty {
+                Ty::Struct(id) => Pat::Struct(*id, ps, None),
+                _ => Pat::Tuple(ps),
+            };
+            arms.insert(0, first);
+        }
         let values = u.values(&ty, 4);
         // make the arm list acceptable: drop unreachable arms, close with a wildcard if needed
         let mut reached = vec![false; arms.len()];
